@@ -157,10 +157,31 @@ func (g *Gen) evalIdent(env *Env, x *SExpr) *Val {
 					}
 				}
 				if env.loop != nil && len(as) > 1 {
+					found := false
 					for _, c := range as {
 						if env.loop.modVars[c] {
 							a = c
+							found = true
 							break
+						}
+					}
+					if !found {
+						// several locals share the name and the loop assigns none of them: the one in scope is
+						// the latest declaration before the loop
+						lp := token.Pos(1 << 40)
+						for b := range env.loop.blocks {
+							for _, in := range b.Instrs {
+								if p := in.Pos(); p.IsValid() && p < lp {
+									lp = p
+								}
+							}
+						}
+						best := token.NoPos
+						for _, c := range as {
+							if c.Pos() <= lp && c.Pos() > best {
+								best = c.Pos()
+								a = c
+							}
 						}
 					}
 				}
